@@ -388,6 +388,8 @@ def close(a, b, tol):
     if a == b:
         return True
     if REL_ONLY[0]:
+        if a in (float("inf"), float("-inf")) or b in (float("inf"), float("-inf")):
+            return False        # an infinity against a finite exact value is a departure
         return abs(a - b) <= tol * max(abs(a), abs(b))
     return abs(a - b) <= tol * max(1.0, abs(a), abs(b))
 
